@@ -38,6 +38,7 @@ import (
 	"github.com/segmentio/kafka-go/protocol/fetch"
 	"github.com/segmentio/kafka-go/protocol/listoffsets"
 	"github.com/segmentio/kafka-go/protocol/metadata"
+	"github.com/segmentio/kafka-go/protocol/produce"
 
 	"kvharness/internal/gen"
 	"kvharness/internal/muxfake"
@@ -144,6 +145,15 @@ func (b *muxBroker) readLoop() {
 				if len(m.TopicNames) == 1 {
 					q.tag, _ = strconv.Atoi(strings.TrimPrefix(m.TopicNames[0], "t"))
 				}
+			case *produce.Request:
+				// the tag is the value of the first record
+				if len(m.Topics) == 1 && len(m.Topics[0].Partitions) == 1 && m.Topics[0].Partitions[0].RecordSet.Records != nil {
+					if rec, err := m.Topics[0].Partitions[0].RecordSet.Records.ReadRecord(); err == nil {
+						if v, err := protocol.ReadAll(rec.Value); err == nil {
+							q.tag, _ = strconv.Atoi(string(v))
+						}
+					}
+				}
 			case *fetch.Request:
 				q.tag = int(m.MaxWaitTime)
 				q.gz = b.rr.Intn(100) < b.gzPct
@@ -175,7 +185,8 @@ func response(q muxReq, id int32, errCode int16) []byte {
 	switch q.key {
 	case 18:
 		msg = &apiversions.Response{ApiKeys: []apiversions.ApiKeyResponse{{ApiKey: 18, MaxVersion: 0}, {ApiKey: 3, MinVersion: 1, MaxVersion: 1},
-			{ApiKey: 2, MinVersion: 1, MaxVersion: 1}, {ApiKey: 1, MinVersion: 2, MaxVersion: max16(q.fetchVer, 2)}}}
+			{ApiKey: 2, MinVersion: 1, MaxVersion: 1}, {ApiKey: 1, MinVersion: 2, MaxVersion: max16(q.fetchVer, 2)},
+			{ApiKey: 0, MinVersion: 2, MaxVersion: []int16{2, 3, 7}[int(uint32(id))%3]}}}
 	case 2:
 		msg = &listoffsets.Response{Topics: []listoffsets.ResponseTopic{{Topic: "t",
 			Partitions: []listoffsets.ResponsePartition{{Partition: 0, ErrorCode: errCode, Timestamp: int64(q.tag), Offset: int64(q.tag)}}}}}
@@ -184,6 +195,10 @@ func response(q muxReq, id int32, errCode int16) []byte {
 		msg = &metadata.Response{Brokers: []metadata.ResponseBroker{{NodeID: 1, Host: "broker1", Port: 9092}}, ControllerID: 1,
 			Topics: []metadata.ResponseTopic{{Name: name, Partitions: []metadata.ResponsePartition{
 				{ErrorCode: errCode, PartitionIndex: 0, LeaderID: 1, ReplicaNodes: []int32{1}, IsrNodes: []int32{1}}}}}}
+	case 0:
+		// Produce: the base offset assigned to the batch is the tag
+		msg = &produce.Response{Topics: []produce.ResponseTopic{{Topic: "t",
+			Partitions: []produce.ResponsePartition{{Partition: 0, ErrorCode: errCode, BaseOffset: int64(q.tag), LogAppendTime: -1}}}}}
 	case 1:
 		// Fetch v2, one magic-1 message whose value is the tag
 		val := []byte(strconv.Itoa(q.tag))
@@ -540,7 +555,7 @@ func connScenario(r *rand.Rand, thorough bool, single bool, stallAt int) {
 		wg.Add(1)
 		ops := make([]string, perG)
 		for i := range ops {
-			ops[i] = []string{"offset", "parts", "batch", "offset", "parts"}[r.Intn(5)]
+			ops[i] = []string{"offset", "parts", "batch", "offset", "parts", "produce"}[r.Intn(6)]
 			if stallAt >= 0 {
 				ops[i] = "offset"
 			}
@@ -574,6 +589,13 @@ func connScenario(r *rand.Rand, thorough bool, single bool, stallAt int) {
 					default:
 						res = "ok:" + strings.TrimPrefix(ps[0].Topic, "t")
 					}
+				case "produce":
+					_, _, off, _, err := conn.WriteCompressedMessagesAt(nil, kafka.Message{Value: []byte(strconv.Itoa(tag))})
+					if err != nil {
+						res = errRes(err)
+					} else {
+						res = fmt.Sprintf("ok:%d", off)
+					}
 				case "batch":
 					bt := conn.ReadBatchWith(kafka.ReadBatchConfig{MinBytes: 1, MaxBytes: 1 << 20, MaxWait: time.Duration(tag) * time.Millisecond})
 					o0, h0 := bt.Offset(), bt.HighWaterMark()
@@ -602,7 +624,7 @@ func connScenario(r *rand.Rand, thorough bool, single bool, stallAt int) {
 						res = "ok:" + string(msg.Value)
 					}
 				}
-				if os.Getenv("C06_DEBUG") != "" && !strings.HasPrefix(res, "ok") {
+				if os.Getenv("C06_DEBUG") != "" && (!strings.HasPrefix(res, "ok") || op == "produce") {
 					fmt.Fprintf(os.Stderr, "op %s tag %d -> %s\n", op, tag, res)
 				}
 				mu.Lock()
